@@ -35,7 +35,7 @@ def api_run(name, tier, seed, cfgs):
     rng = random.Random(seed + 5)
     by_id = {m["id"]: m for m in metas}
     char_bytes = {}
-    maxlen = 3 if tier == "quick" else 4
+    maxlen = 3
     maxops = 4 if tier == "quick" else 6
     nchars = 3 if tier == "quick" else 4
     for td, m in zip(tla_defs, metas):
@@ -73,7 +73,7 @@ def api_run(name, tier, seed, cfgs):
                   metaname="api", timeout=6000, xss="512m")
     if not res["ok"]:
         raise ToolError("LexerAPI.tla: SpanInv violated at specification level:\n" + res["out"][-3000:])
-    recs = [r[2] for r in tlc_records(res["out"]) if r[0] == "API"]
+    recs = [r[2] for r in tlc_records(res) if r[0] == "API"]
     log("[api] TLC %d states, %d distinct, %d states with operations, %.1fs" % (res["states"], res["distinct"], len(recs), res["wall"]))
     bins = build_subjects(metas, cfgs, name, pairs=pairs)
     pidx_of = {ia: p for (p, ia, ib, s) in pairs}
